@@ -264,7 +264,7 @@ func runC15(r *core.Run) {
 	r.Rule("dumps printed by G-DUMP whose pointer-like values are drawn from pools of 0..500 distinct addresses (forced recurrence across goroutines, frames and nested aggregate fields; values at the classification boundaries 512Ki, 512Ki+1, 2^63-2, 2^63-1), parsed with naming on and off; one case in five is cut at a line and ends in a malformed frame or in a reader error, so that the snapshot is handed out together with an error; " +
 		"the labelling laws (same value <=> same name, recurring => named, names #1..#k dense, ascending by address within 'recurs in the first goroutine' and within 'never in the first goroutine', first group before second, non-pointers never named, naming off => no names, nothing else changes) are checked literally. distinct by hash; non-trivial = >= 2 distinct pointer values")
 	r.Assume("pointers occurring once in the first goroutine may or may not be named (not stated)")
-	n := r.N(150000, 600000)
+	n := r.N(150000, 3000000)
 	core.Parallel(n, workers(), func(i int) {
 		c := genC15(r, i)
 		c15Eval(r, c)
